@@ -6,8 +6,8 @@ PROP = {
     "level": "exploration",
     "rule": ("harness built with the Go race detector. Unit 1: rapid-generated workloads {fixed-window or concurrency quota with max 1-12} x 2-16 goroutines x 1-12 transactions each "
              "(a third through a Limiter flow, a third through a branching Filter/GenerateResponse flow, a third to one of four specific URLs h.com/s<k> whose filter node sits below a wildcard node holding three flows; request then response), released together at a frozen virtual instant, optionally with a "
-             "metrics reader and a concurrent re-load of the same configuration. Unit 2: 2-8 goroutines doing policy lookups for fresh transaction ids while policies are swapped and the "
-             "vacuum's timers are fired. Unit 3: 2-8 goroutines sending transactions through routing.Handler of a real HandlingDataManager while the flows are re-loaded through POST /load_flows (every "
+             "metrics reader and a concurrent re-load of the same configuration. Unit 2: 2-8 goroutines doing policy lookups for fresh transaction ids, and later look-ups for their earlier ones, while policies are swapped (spread over the ticks) and the "
+             "vacuum's timers are fired; a later look-up less than the 30 s retention after the first (clock read before the first and after the later one) must give the same policies. Unit 3: 2-8 goroutines sending transactions through routing.Handler of a real HandlingDataManager while the flows are re-loaded through POST /load_flows (every "
              "transaction must be answered by some version of the flow). Oracles: (a) every race report whose innermost lunar frames (normalised: no line numbers, closure numbers or type arguments) are not a listed known "
              "finding is a violation; (b) serialisability: a fixed-window quota admits exactly min(requests, max); a concurrency quota is free again after all transactions ended; every "
              "transaction of the branching flow gets exactly the actions its own headers determine; lookups never fail. Non-trivial: >=2 transactions were in flight at the same time (measured). "
